@@ -451,3 +451,33 @@ def l_dilute(L):
     L.prove('MSA: 1 + F_MSA(0,u) == 1 - u', 1 + F_MSA(z3.RealVal(0), u) == 1 - u, [])
     B2, pi, S = z3.Reals('B2 pi S')
     L.prove('B2 == -hhat(0)/2 with hhat(0) == 4 pi S  ==>  B2 == -2 pi S', z3.Implies(z3.And(B2 == -hh / 2, hh == 4 * pi * S), B2 == -2 * pi * S), [])
+
+
+# --------------------------------------------------------------------------- Lean second opinion (thorough tier only)
+
+@lemma('lean-ring-lemmas', props=['C01', 'C04', 'C05'])
+def l_lean(L):
+    """lemmas/Ring.lean states the PRISM fixed-point lemma, the S(k) identity and the permutation equivariance for an
+    arbitrary ring and is re-checked by Lean 4 + Mathlib (about 3 min cold, hence thorough tier only).  A second opinion:
+    the z3 hint chains above decide the same statements on every run."""
+    if L.tier != 'thorough':
+        return
+    import os
+    import re
+    import shutil
+    import subprocess
+    import time
+    path = os.path.join(L.verif, 'lemmas', 'Ring.lean')
+    src = open(path).read()
+    L.check('Ring.lean contains no sorry / admit / axiom', not re.search(r'\b(sorry|admit|axiom)\b', re.sub(r'/-.*?-/', '', src, flags=re.S)), backend='syntactic')
+    if shutil.which('lean') is None:
+        L.undecided('lean re-check', 'lean not on PATH', backend='lean')
+        return
+    t0 = time.time()
+    try:
+        p = subprocess.run(['lean', path], capture_output=True, text=True, timeout=1500)
+        ok = p.returncode == 0 and 'error' not in (p.stdout + p.stderr)
+        L.record('lean accepts prism_fixed_point, structure_factor_identity, permutation_equivariance', 'proved' if ok else 'unknown', 'lean4+mathlib',
+                 time.time() - t0, detail='' if ok else (p.stdout + p.stderr)[-1500:])
+    except subprocess.TimeoutExpired:
+        L.undecided('lean re-check', 'lean timed out after 1500 s', backend='lean')
